@@ -610,9 +610,43 @@ def run_case(case):
                             if not b0:
                                 bad += check_fine_data("cgmap-sim", tf, df, o, cmap, dc, 1e-9, 1e-9 * smax, cnt,
                                                        "cgmap_sim_checks")
-            # identity map
-            plain = st.simulate(system, list(ts_), engine=engines.get("euler"), **kw)
-            ident = st.simulate(system, list(ts_), engine=engines.get("euler"), cgmap=list(range(n)), **kw)
+            # identity map - under any of the script's options, which the coarse-grained run must take over unchanged
+            opt = {}
+            if r.random() < 0.5:
+                pol = r.choice(["on_interval", "on_iteration", "on_t_sample"])
+                opt["sampling_policy"] = pol
+                if pol == "on_interval":
+                    opt["sampling_interval"] = gen.q_bare(r.choice([2, 3, 5]) * dt, usys, gen.TIME_DIM)
+            if r.random() < 0.3:
+                opt["t_max"] = gen.q_bare((K + r.randint(1, 4)) * dt, usys, gen.TIME_DIM)
+            if r.random() < 0.3:
+                opt["init_state_processing"] = "none"
+            if r.random() < 0.3:
+                opt["rng_seed"] = r.randrange(2 ** 31)
+            if opt:
+                cnt["identity_checks_with_script_options"] = cnt.get("identity_checks_with_script_options", 0) + 1
+            plain = st.simulate(system, list(ts_), engine=engines.get("euler"), **kw, **opt)
+            ident = st.simulate(system, list(ts_), engine=engines.get("euler"), cgmap=list(range(n)), **kw, **opt)
+            # the initial-state processing mode is one of those options: 'none' on a stochastic engine passes a non-integer
+            # state through unchanged, an explicit 'redist' on the deterministic engine turns it into integers (the draws
+            # themselves are not compared: only what the mode guarantees whatever the draws)
+            st0 = [float(x) for x in system.state.convert("molecule").value]
+            if any(x != math.floor(x) for x in st0):
+                for kind_i, mode_i in (("tauleap", "none"), ("gillespie", "none"), ("euler", "redist")):
+                    if r.random() < 0.5:
+                        continue
+                    tri = st.simulate(system, list(ts_[:1]), engine=engines.get(kind_i), cgmap=list(range(n)), init_state_processing=mode_i,
+                                      rng_seed=r.randrange(2 ** 31), **kw)
+                    rec0 = [float(x) for x in tri.data.convert("molecule").value[:S * n]]
+                    cnt["identity_init_mode_checks"] = cnt.get("identity_init_mode_checks", 0) + 1
+                    if mode_i == "none":
+                        okk = all(abs(a - b) <= 1e-9 * (abs(b) + 1e-300) for a, b in zip(rec0, st0))
+                    else:
+                        okk = all(abs(a - round(a)) <= 1e-9 * (abs(a) + 1) for a in rec0)
+                    if not okk:
+                        bad.append({"what": "identity-map: the run with cgmap=identity does not use the script's init_state_processing",
+                                    "engine": kind_i, "mode": mode_i, "t0_record": rec0[:8], "state": st0[:8]})
+                        break
             tp, dp = traj_si(plain, n, S)
             try:
                 ti, di = traj_si(ident, n, S)
